@@ -448,11 +448,13 @@ fn add_intersecting_format2_patches(
     };
 
     for (order, e) in entries.iter().enumerate() {
-        if e.ignored {
-            continue;
-        }
-
-        if !entry_intersection_cache.intersects(order, subset_definition) {
+        // Evaluate every entry in order, ignored ones included: child indices only refer to prior
+        // entries, so this fills the cache bottom up and the recursion in `intersects()` never goes
+        // deeper than one level. (Skipping ignored entries here left them uncached, and a chain of
+        // ignored entries each naming its predecessor was then walked recursively from the first
+        // live entry that referenced it: stack overflow for long chains.)
+        let intersects = entry_intersection_cache.intersects(order, subset_definition);
+        if e.ignored || !intersects {
             continue;
         }
 
